@@ -146,6 +146,9 @@ def ops_for(ty):
     add('is_nan', 'P', 'bool', f'{T}::is_nan(x)', f'crate.{m}.{T}.is_nan x', b(f'a == Spec.nar {F}'), 'C10')
     add('is_finite', 'P', 'bool', f'{T}::is_finite(x)', f'crate.{m}.{T}.is_finite x', b(f'a != Spec.nar {F}'), 'C10')
     add('is_infinite', 'P', 'bool', f'{T}::is_infinite(x)', f'crate.{m}.{T}.is_infinite x', b(f'a == Spec.nar {F}'), 'C10')
+    # classify: not translated (match on associated constants) - implementation against the specification only; codes: Nan 0, Zero 2, Normal 4
+    add('classify', 'P', 'cat', f'{T}::classify(x)', None, f'some (if a == 0 then 2 else if a == Spec.nar {F} then 0 else 4)', 'C10')
+    add('Float_classify', 'P', 'cat', 'num_traits::Float::classify(x)', None, f'some (if a == 0 then 2 else if a == Spec.nar {F} then 0 else 4)', 'C17')
     # is_normal is not among the operations C10 names (the crate defines it as !is_nar): model-vs-impl only
     add('is_normal', 'P', 'bool', f'{T}::is_normal(x)', f'crate.{m}.{T}.is_normal x', None, 'C10')
     add('recip', 'P', 'P', 'x.recip()', f'crate.{m}.{T}.recip x', f'some (Spec.div {F} (Spec.one {F}) a)', 'C01')
@@ -310,7 +313,7 @@ def forwarders(ty):
     for o in ('abs', 'signum'): P += [('Signed_' + o, o)]
     P += [('Signed_is_negative', 'is_sign_negative'), ('Signed_is_positive', 'is_sign_positive'), ('Zero_is_zero', 'is_zero')]
     for o in ('sqrt', 'round', 'floor', 'ceil', 'trunc', 'fract', 'abs', 'signum', 'recip', 'mul_add', 'min', 'max',
-              'sin', 'cos', 'tan', 'asin', 'acos', 'atan', 'ln', 'log2', 'exp', 'exp2', 'sinh', 'cosh', 'cbrt', 'atan2', 'hypot', 'powf'):
+              'sin', 'cos', 'tan', 'asin', 'acos', 'atan', 'ln', 'log2', 'exp', 'exp2', 'sinh', 'cosh', 'cbrt', 'atan2', 'hypot', 'powf', 'classify'):
         P += [('Float_' + o, o)]
     P += [('lt', 'lt_m'), ('le', 'le_m'), ('gt', 'gt_m'), ('ge', 'ge_m'), ('eq', 'eq_m'), ('cmp', 'cmp_m')]
     ops = {op: (args, lean) for (op, args, ret, rust, lean, spec, prop) in ops_for(ty)}
